@@ -194,3 +194,25 @@ def _has_single_item_group(gram: str) -> bool:
         if len(alts) == 1 and re.match(r"\s+\| v\d+=\(", alts[0]) and len(re.findall(r"(?<![\w(])v\d+=", re.sub(r"\(.*\)", "()", alts[0]))) <= 1:
             return True
     return False
+
+
+_C18_BRACKETS = {"paren/paren", "tuple/tuple", "list/list", "set/set", "listcomp/listcomp"}
+
+
+def m_c18_invalid_nested_brackets(f, rec):
+    k = rec["case"].get("family") or []
+    if len(k) != 3 or k[0] != "nest":
+        return False
+    name = k[1]
+    if name.startswith("pattern:"):
+        return False
+    if name.startswith("target:"):
+        name = name.split(":", 2)[2]
+    a, _, b = name.partition("/")
+    plain = {"paren", "tuple", "list", "set", "listcomp", "starred", "dict"}
+    return k[2] in ("trailing", "wrong_closer", "missing_operand", "doubled") and a in plain and b in plain
+
+
+def m_c18_nested_patterns(f, rec):
+    k = rec["case"].get("family") or []
+    return len(k) == 3 and k[0] == "nest" and k[1].startswith("pattern:")
